@@ -1234,7 +1234,7 @@ class Container:
             raise TypeError("Total quantity must be a str.")
 
         if not name:
-            name = f"Solution of {','.join(substance.name for substance in solute)} in {solvent.name}"
+            name = f"Solution of {','.join(substance.name for substance in solute)} in {original_solvent.name}"
 
         def convert_one(substance: Substance, u: str) -> float:
             """ Converts 1 mol or U to unit `u` for a given substance. """
@@ -2281,7 +2281,7 @@ class Recipe:
         if not isinstance(solute, (Substance, str)) and isinstance(solute, Iterable):
             solute = list(solute)
         kwargs = {key: (list(value) if not isinstance(value, str) and isinstance(value, Iterable) else value)
-                  for key, value in kwargs.items()}
+                  for key, value in kwargs.items() if value is not None}  # (quantity=None is "not given", as eagerly)
 
         if not isinstance(solute, Substance):
             if not isinstance(solute, Iterable):
@@ -2311,9 +2311,10 @@ class Recipe:
         if isinstance(solvent, Container) and self._undeclared(solvent):
             raise ValueError(f"Solvent {solvent.name} has not been previously declared for use.")
 
-        solute_names = ', '.join(substance.name for substance in solute) if isinstance(solute, Iterable) else solute.name
-        if name is None:
-            name = f"solution of {solute_names} in {solvent.name}"
+        if not name:
+            # (the name the eager call gives)
+            solute_names = ','.join(substance.name for substance in solute) if isinstance(solute, Iterable) else solute.name
+            name = f"Solution of {solute_names} in {solvent.name}"
 
         new_container = Container(name)
         self.uses(new_container)
